@@ -371,3 +371,68 @@ func bigFamily(g *docGen, n int, f func([]byte)) {
 		}
 	}
 }
+
+// deepFamily: nesting far beyond what the random documents reach (arrays, objects, alternating),
+// balanced, one closer short, one closer too many and a mismatched innermost closer; and wide
+// containers. A depth or size limit, a stack growth slip or a capacity-dependent path only shows here.
+func deepFamily(full bool, f func([]byte)) {
+	depths := []int{7, 8, 15, 16, 17, 31, 32, 33, 63, 64, 65, 100, 101, 127, 128, 129, 255, 256, 257, 1000, 1024, 1025}
+	if full {
+		depths = append(depths, 2047, 2048, 2049, 4095, 4096, 4097, 10000)
+	}
+	for _, d := range depths {
+		for kind := 0; kind < 3; kind++ {
+			var open, cl strings.Builder
+			closers := make([]byte, 0, d)
+			for i := 0; i < d; i++ {
+				arr := kind == 0 || (kind == 2 && i%2 == 0)
+				if arr {
+					open.WriteByte('[')
+					closers = append(closers, ']')
+				} else {
+					open.WriteString(`{"a":`)
+					closers = append(closers, '}')
+				}
+			}
+			for i := d - 1; i >= 0; i-- {
+				cl.WriteByte(closers[i])
+			}
+			o, c := open.String(), cl.String()
+			f([]byte(o + "1" + c))
+			f([]byte(o + "1" + c[:len(c)-1]))
+			f([]byte(o + "1" + c + c[len(c)-1:]))
+			wrong := byte(']')
+			if c[0] == ']' {
+				wrong = '}'
+			}
+			f([]byte(o + "1" + string(wrong) + c[1:]))
+			f([]byte(o + c)) // empty innermost container (valid for arrays, an error for objects' `:`)
+			f([]byte(o + `"x\n"` + c + " "))
+		}
+	}
+	widths := []int{100, 1000}
+	if full {
+		widths = append(widths, 5000, 20000)
+	}
+	for _, n := range widths {
+		var a, o1, o2 strings.Builder
+		a.WriteByte('[')
+		o1.WriteByte('{')
+		o2.WriteByte('{')
+		for i := 0; i < n; i++ {
+			if i > 0 {
+				a.WriteByte(',')
+				o1.WriteByte(',')
+				o2.WriteByte(',')
+			}
+			fmt.Fprintf(&a, "%d", i)
+			fmt.Fprintf(&o1, `"k%d":%d`, i, i)
+			fmt.Fprintf(&o2, `"k":%d`, i)
+		}
+		f([]byte(a.String() + "]"))
+		f([]byte(a.String() + ",]"))
+		f([]byte(o1.String() + "}"))
+		f([]byte(o2.String() + "}"))
+		f([]byte(o1.String()))
+	}
+}
